@@ -980,6 +980,18 @@ class Evaluator:
                             v = v.elts[p.pop(0)]
                         base = self._t(v, node, restrict)
                         res = self._project(base, p)
+                        st_ = getattr(node, "stmt", None)
+                        if path and isinstance(path[0], int) and isinstance(st_, ast.Assign) and len(st_.targets) == 1 and \
+                                isinstance(st_.targets[0], (ast.Tuple, ast.List)) and \
+                                not any(isinstance(e_, ast.Starred) for e_ in st_.targets[0].elts):
+                            # `a, b, c = X` with X a display of another length raises: the names are bound to nothing that
+                            # a correct form could equal
+                            full = self._t(value, node, restrict)
+                            hf = self.ctx.head_of(full)
+                            if hf and hf[0] in ("tuple", "list") and len(hf) == 1 and \
+                                    not any((self.ctx.head_of(x_) or ("",))[0] == "star" for x_ in self.ctx.args_of(full)) and \
+                                    len(self.ctx.args_of(full)) != len(st_.targets[0].elts):
+                                res = self.ctx.mk(("unpack-error", len(st_.targets[0].elts)), (full,))
                     elif how == "iter":
                         it = self._t(value, node, restrict)
                         res = self._iter_elem(it, path, depth=self._loop_depth(node.stmt, it, restrict))
